@@ -476,6 +476,23 @@ func (fx *FX) evalCall(env *Env, c ECall) Val {
 				}
 			}
 		}
+	case "maphas", "mapget": // lookup in a package-level literal map: maphas(knownSuites, key)
+		if id, ok := c.Args[0].(EIdent); ok {
+			if cm, vt := fx.u.globalMap(id.Name); cm != nil {
+				var kt T
+				switch k := argv(1).(type) {
+				case VInt:
+					kt = k.T
+				default:
+					kt = seq(1)
+				}
+				v, has := fx.u.mapChain(fx, cm, kt, vt)
+				if c.Fn == "maphas" {
+					return VBool{has}
+				}
+				return v
+			}
+		}
 	case "suitecfg": // the SuiteConfig held by a Suite value of dynamic type SuiteConfig or RawSuite (same layout)
 		if iv, ok := argv(0).(VIface); ok {
 			t := fx.u.typeByName("SuiteConfig")
